@@ -592,27 +592,27 @@ def subchecks(tier):
     subs = []
     for svd, tag in (("truncated_svd", "truncated"), ("symeig_svd", "symeig")):
         subs += [
-            SubCheck(f"tucker/bounds/{tag}", _tucker_case(svd), o_tucker_bounds, quick=120, thorough=1500),
-            SubCheck(f"tucker/exact/{tag}", _tucker_case(svd, sufficient=True), o_tucker_exact, quick=120, thorough=1500),
-            SubCheck(f"tucker/ranks/{tag}", _tucker_case(svd), o_tucker_ranks, quick=100, thorough=1000),
-            SubCheck(f"partial_tucker/bounds/{tag}", _tucker_case(svd, partial=True), o_tucker_bounds, quick=120, thorough=1500),
-            SubCheck(f"partial_tucker/exact/{tag}", _tucker_case(svd, sufficient=True, partial=True), o_tucker_exact, quick=100, thorough=1000),
-            SubCheck(f"tt/bounds/{tag}", _tt_case(svd), _o_tt("bounds"), quick=200, thorough=2500),
-            SubCheck(f"tt/exact/{tag}", _tt_case(svd, sufficient=True), _o_tt("exact"), quick=200, thorough=2500),
-            SubCheck(f"tt/ranks/{tag}", _tt_case(svd), _o_tt("ranks"), quick=150, thorough=1500),
+            SubCheck(f"tucker/bounds/{tag}", _tucker_case(svd), o_tucker_bounds, quick=250, thorough=2000),
+            SubCheck(f"tucker/exact/{tag}", _tucker_case(svd, sufficient=True), o_tucker_exact, quick=250, thorough=2000),
+            SubCheck(f"tucker/ranks/{tag}", _tucker_case(svd), o_tucker_ranks, quick=200, thorough=1500),
+            SubCheck(f"partial_tucker/bounds/{tag}", _tucker_case(svd, partial=True), o_tucker_bounds, quick=250, thorough=2000),
+            SubCheck(f"partial_tucker/exact/{tag}", _tucker_case(svd, sufficient=True, partial=True), o_tucker_exact, quick=200, thorough=1500),
+            SubCheck(f"tt/bounds/{tag}", _tt_case(svd), _o_tt("bounds"), quick=400, thorough=3000),
+            SubCheck(f"tt/exact/{tag}", _tt_case(svd, sufficient=True), _o_tt("exact"), quick=400, thorough=3000),
+            SubCheck(f"tt/ranks/{tag}", _tt_case(svd), _o_tt("ranks"), quick=300, thorough=2000),
         ]
     subs += [
-        SubCheck("ttm/bounds", _ttm_case(), _o_ttm("bounds"), quick=200, thorough=2500),
-        SubCheck("ttm/exact", _ttm_case(sufficient=True), _o_ttm("exact"), quick=200, thorough=2500),
-        SubCheck("ttm/ranks", _ttm_case(), _o_ttm("ranks"), quick=150, thorough=1500),
-        SubCheck("ttm/to_matrix", _ttm_case(sufficient=True), _o_ttm("to_matrix"), quick=200, thorough=2500),
-        SubCheck("tr/exact", _tr_case("nontrunc", "safe"), _o_tr("exact"), quick=200, thorough=2500),
-        SubCheck("tr/equality", _tr_case("nontrunc", "safe"), _o_tr("equality"), quick=200, thorough=2500),
-        SubCheck("tr/ranks", _tr_case("admissible", "safe"), _o_tr("ranks"), quick=200, thorough=2500),
-        SubCheck("tr/reject", _tr_case("reject", "safe"), _o_tr("reject"), quick=150, thorough=1500),
+        SubCheck("ttm/bounds", _ttm_case(), _o_ttm("bounds"), quick=400, thorough=3000),
+        SubCheck("ttm/exact", _ttm_case(sufficient=True), _o_ttm("exact"), quick=400, thorough=3000),
+        SubCheck("ttm/ranks", _ttm_case(), _o_ttm("ranks"), quick=300, thorough=2000),
+        SubCheck("ttm/to_matrix", _ttm_case(sufficient=True), _o_ttm("to_matrix"), quick=400, thorough=3000),
+        SubCheck("tr/exact", _tr_case("nontrunc", "safe"), _o_tr("exact"), quick=400, thorough=3000),
+        SubCheck("tr/equality", _tr_case("nontrunc", "safe"), _o_tr("equality"), quick=400, thorough=3000),
+        SubCheck("tr/ranks", _tr_case("admissible", "safe"), _o_tr("ranks"), quick=400, thorough=3000),
+        SubCheck("tr/reject", _tr_case("reject", "safe"), _o_tr("reject"), quick=300, thorough=2000),
         # start mode >= 2 with non-constant ranks (rank rotation in tensor_ring), kept apart
-        SubCheck("tr_mode2plus/ranks", _tr_case("admissible", "mode2plus"), _o_tr("ranks"), quick=200, thorough=2500),
-        SubCheck("tr_mode2plus/equality", _tr_case("nontrunc", "mode2plus"), _o_tr("equality"), quick=200, thorough=2500),
-        SubCheck("tr_mode2plus/reject", _tr_case("reject", "mode2plus"), _o_tr("reject"), quick=150, thorough=1500),
+        SubCheck("tr_mode2plus/ranks", _tr_case("admissible", "mode2plus"), _o_tr("ranks"), quick=400, thorough=3000),
+        SubCheck("tr_mode2plus/equality", _tr_case("nontrunc", "mode2plus"), _o_tr("equality"), quick=400, thorough=3000),
+        SubCheck("tr_mode2plus/reject", _tr_case("reject", "mode2plus"), _o_tr("reject"), quick=300, thorough=2000),
     ]
     return subs
